@@ -26,6 +26,13 @@ def run_one(prop: str, tier: str, repo: str | None, quiet: bool = False) -> int:
             mod.run(ctx)
         except report.MissingConstruct:
             pass    # the failing obligation is filed; report it (exit 1) instead of evaluating the remaining rules over nothing
+        except AnalysisError as e:
+            if str(e).startswith("anchor ") or "not found" in str(e):
+                # an anchor function / class / module of the clause is gone from the tree: same treatment
+                ctx.ob(0, "ANCHOR", f"the code this clause is decided on is present: {e}", False, construct=f"missing: {e}"[:200],
+                       detail="the rule has nothing to be evaluated on; without the construct it would pass vacuously")
+            else:
+                raise
         extra = {}
         if tier == "thorough":
             from . import mutate
